@@ -21,6 +21,7 @@ class Stats:
         self.feas_calls = 0
         self.vc_calls = 0
         self.unknown_feas = 0
+        self.model_hits = 0
 
 
 STATS = Stats()
@@ -65,6 +66,8 @@ class Path:
         self.assumption_log = symtab.setdefault("__assumptions__", {})
         self.frame_violations = []
         self.cover = set()
+        self._model = None
+        self._model_ok = {}
 
     # -- symbols: deterministic names so that re-execution recreates identical terms
     def fresh_real(self, base):
@@ -119,10 +122,43 @@ class Path:
         self.assumes.pop()
 
     def feasible(self, extra):
+        # re-execution recreates identical terms (deterministic symbol names, hash-consed ASTs): queries repeat verbatim along
+        # shared path prefixes and inside merged evaluations, so they are memoised per exploration (terms kept alive by the cache)
+        pcs = self.all_pc()
+        cache = self.symtab.setdefault("__feas_cache__", {})
+        key = (tuple(a.get_id() for a in pcs), extra.get_id())
+        hit = cache.get(key)
+        if hit is not None:
+            return hit[0]
+        # witness shortcut: a model known to satisfy the whole path condition that also satisfies `extra` proves feasibility
+        if self._model is not None:
+            ok = True
+            for a in pcs:
+                i = a.get_id()
+                if i in self._model_ok:
+                    continue
+                if z3.is_true(self._model.eval(a, model_completion=True)):
+                    self._model_ok[i] = a
+                else:
+                    ok = False
+                    break
+            if not ok:
+                self._model, self._model_ok = None, {}
+            elif z3.is_true(self._model.eval(extra, model_completion=True)):
+                STATS.model_hits += 1
+                cache[key] = (True, pcs, extra)
+                return True
         STATS.feas_calls += 1
-        r, _ = check(self.all_pc() + [extra], FEAS_RLIMIT, FEAS_TIMEOUT_MS)
+        r, s = check(pcs + [extra], FEAS_RLIMIT, FEAS_TIMEOUT_MS)
         if r == z3.unknown:
             STATS.unknown_feas += 1
+        if r == z3.sat and self._model is None:
+            try:
+                self._model = s.model()
+                self._model_ok = {a.get_id(): a for a in pcs}
+            except z3.Z3Exception:
+                self._model = None
+        cache[key] = (r != z3.unsat, pcs, extra)
         return r != z3.unsat
 
     def branch(self, cond):
@@ -131,6 +167,12 @@ class Path:
             return True
         if z3.is_false(cond):
             return False
+        lit = self._known(cond)
+        if lit is not None and (self.assumes or len(self.trace) >= len(self.prefix)):
+            if self.assumes:
+                return lit
+            self.trace.append(1 if lit else 0)     # already a conjunct of the path condition: nothing to add
+            return lit
         if self.assumes:
             ft = self.feasible(cond)
             ff = self.feasible(z3.Not(cond))
@@ -155,8 +197,27 @@ class Path:
             else:
                 raise PathInfeasible()
         self.trace.append(d)
-        self.pc.append(cond if d else z3.Not(cond))
+        if self._known(cond) is None:
+            self.pc.append(cond if d else z3.Not(cond))
         return bool(d)
+
+    def _known(self, cond):
+        """cond (or its negation) already is, syntactically, a conjunct of the path condition"""
+        neg = False
+        a = cond
+        while z3.is_not(a):
+            a = a.arg(0)
+            neg = not neg
+        aid = a.get_id()
+        for c in self.pc[-400:] + self.assumes:
+            n2 = False
+            b = c
+            while z3.is_not(b):
+                b = b.arg(0)
+                n2 = not n2
+            if b.get_id() == aid:
+                return neg == n2
+        return None
 
     def choose(self, n, label=""):
         """Nondeterministic choice among n alternatives (used by loop-invariant schemes)."""
@@ -184,6 +245,73 @@ class Path:
         self.frame_violations.append((label, what, list(self.all_pc())))
 
 
+class TransModel:
+    """model living in a private z3 context; evaluates terms of the main context by translating them"""
+
+    def __init__(self, model, ctx):
+        self.model, self.ctx = model, ctx
+
+    def eval(self, t, model_completion=False):
+        v = self.model.eval(t.translate(self.ctx), model_completion=model_completion)
+        return v.translate(z3.main_ctx())
+
+    def decls(self):
+        return self.model.decls()
+
+    def __getitem__(self, d):
+        return self.model[d]
+
+
+def _solve(asserts, ctx, rlimit):
+    s = z3.Solver(ctx=ctx)
+    s.set("rlimit", rlimit)
+    s.set("timeout", VC_TIMEOUT_MS)
+    for a in asserts:
+        s.add(a)
+    return s.check(), s
+
+
+def _ite_conditions(asserts, limit=6):
+    seen, out, stack = set(), [], list(asserts)
+    while stack:
+        t = stack.pop()
+        if t.get_id() in seen:
+            continue
+        seen.add(t.get_id())
+        if z3.is_app_of(t, z3.Z3_OP_ITE) and not z3.is_bool(t):
+            c = t.arg(0)
+            while z3.is_not(c):
+                c = c.arg(0)
+            if all(c.get_id() != o.get_id() for o in out):
+                out.append(c)
+                if len(out) > limit:
+                    return None
+        stack.extend(t.children())
+    return out
+
+
+def _solve_by_ite_cases(asserts, ctx, rlimit):
+    """complete case split over the truth values of the ite conditions: all cases unsat => unsat; a sat case => sat
+    (the case's condition values are asserted, so its model is a model of the original assertions)"""
+    conds = _ite_conditions(asserts)
+    if not conds:
+        return z3.unknown, None
+    tt, ff = z3.BoolVal(True, ctx), z3.BoolVal(False, ctx)
+    import itertools
+    budget = max(rlimit // (2 ** len(conds)), rlimit // 8)
+    for vals in itertools.product((True, False), repeat=len(conds)):
+        sub = [(c, tt if v else ff) for c, v in zip(conds, vals)]
+        case = [z3.simplify(z3.substitute(a, *sub)) for a in asserts] + [c if v else z3.Not(c) for c, v in zip(conds, vals)]
+        if any(z3.is_false(a) for a in case):
+            continue
+        r, s = _solve(case, ctx, budget)
+        if r == z3.sat:
+            return r, s
+        if r == z3.unknown:
+            return z3.unknown, None
+    return z3.unsat, None
+
+
 def discharge(vc: VC):
     g = z3.simplify(vc.goal)
     if z3.is_true(g):
@@ -192,16 +320,30 @@ def discharge(vc: VC):
         return vc
     STATS.vc_calls += 1
     t0 = time.time()
-    r, s = check(vc.pc + [z3.Not(vc.goal)], VC_RLIMIT, VC_TIMEOUT_MS)
+    # every obligation is decided in a private, fresh z3 context: the verdict (and the rlimit budget it needs) then depends on
+    # the obligation's text only, not on whatever terms the exploration left alive in the shared context
+    ctx = z3.Context()
+    asserts = [a.translate(ctx) for a in vc.pc] + [z3.Not(vc.goal).translate(ctx)]
+    r, s = _solve(asserts, ctx, VC_RLIMIT // 10)
+    how = "direct"
+    if r == z3.unknown:
+        # nonlinear obligations with if-then-else terms: decide each combination of the ite conditions separately
+        r2, s2 = _solve_by_ite_cases(asserts, ctx, VC_RLIMIT)
+        if r2 != z3.unknown:
+            r, s, how = r2, s2, "ite-case-split"
+        else:
+            r, s = _solve(asserts, ctx, VC_RLIMIT)
+    STATS.solver_s += time.time() - t0
     vc.seconds = time.time() - t0
+    vc.reason = how
     if r == z3.unsat:
         vc.verdict = "unsat"
     elif r == z3.sat:
         vc.verdict = "sat"
-        vc.model = s.model()
+        vc.model = TransModel(s.model(), ctx)
     else:
         vc.verdict = "unknown"
-        vc.reason = s.reason_unknown()
+        vc.reason = s.reason_unknown() if s is not None else "unknown"
     return vc
 
 
